@@ -12,6 +12,14 @@
       counted); a success must return a feasible allocation (the given one) and pass the validator.
 (3) Equal Shares outcomes must be priceable without the exhaustiveness requirement; infeasible
     allocations never.
+(4) relaxations of the stable condition (priceability_relaxation.py: MinMul, MinAdd, MinAddVector,
+    MinAddVectorPositive, MinAddOffset).  Validator: exact optimal relaxed systems of the LP oracle and copies whose
+    beta is lowered by a margin, judged like (1) and sent to the Lean model `Price.validateRelaxed` /
+    `Price.exactRelaxed` with the relaxed-cost shape of the class (`pricerelax`).  Search: `priceable(..., stable=True,
+    relaxation=R)` in the worker; a success must return an admissible allocation and a price system that the validator
+    accepts with the same relaxation object and that satisfies the relaxed conditions recomputed exactly; the returned
+    beta must be the optimum computed by the exact LP oracle (D = by definition, M = of the MIP as built, S = CBC);
+    whenever the plain stable search succeeds the relaxations return their neutral beta or better.
 """
 from __future__ import annotations
 
@@ -26,16 +34,22 @@ from ..core import Case, q2s
 RULE = ("approval elections with 1..4 voters, 1..4 projects, integer costs 1..4 (occasionally 0), integer budgets on subset sums; "
         "validator: exact LP witnesses and Equal Shares price systems x 10 kinds of margin-0.1 breakage; search: every subset x "
         "stable/plain x exhaustive on/off + searched mode; non-trivial = >=2 voters, >=2 projects, a non-empty allocation and both "
-        "verdicts occur for the election; distinct by case+allocation+flags")
+        "verdicts occur for the election; distinct by case+allocation+flags; relaxations: the five relaxation classes x (3 feasible "
+        "allocations + the searched mode on every 3rd election) x exhaustive on/off, validator on exact LP optima with beta lowered / raised")
 ASSUMPTIONS = [
     "exact-arithmetic mode; list profiles", "integer costs and integer budget (the MIP encodes 'total + c > budget' as '>= budget + 1')",
     "validator inputs are exact numbers (int / mpq); near misses closer than 0.1 are only compared with the model, never judged",
     "searched mode without exhaustiveness: the library additionally requires voter_budget * n >= budget; the oracle does the same",
     "a price system has non-negative payments and a non-negative voter budget",
+    "relaxations: the variable domains declared by add_beta belong to the relaxation (beta >= -10*budget; MinAddVector: beta_c = 0 for selected "
+    "projects and |beta_c| <= budget; MinAddOffset: beta_c >= 0, sum beta_c <= budget/40); MinAdd / MinAddOffset with EVERY project selected is "
+    "degenerate (no unselected project bounds beta: the optimum is decided by the lower bound / the big-M terms) - the returned beta is then "
+    "compared with the optimum of the MIP as built only",
 ]
 TRUSTED = ["exact simplex over Fractions with certified answers (witness substituted / Farkas certificate verified)",
            "CBC answers are re-validated exactly; crashes, timeouts and answers invalid for the given MIP are discarded and counted",
-           "'reports success exactly when a price system exists' is tested against the LP oracle, not proved"]
+           "'reports success exactly when a price system exists' is tested against the LP oracle, not proved",
+           "optimality of the beta returned with a relaxation is tested against the exact simplex (primal/dual certificates verified), not proved"]
 
 TOL = 1e-6
 
@@ -44,8 +58,9 @@ TOL = 1e-6
 # independent exact evaluation of the conditions
 
 
-def conditions(case: Case, W, b, pf, stable, exhaustive):
-    """dict condition -> signed slack (>= 0 means satisfied; for equalities -|difference|), exact"""
+def conditions(case: Case, W, b, pf, stable, exhaustive, rc=None):
+    """dict condition -> signed slack (>= 0 means satisfied; for equalities -|difference|), exact.
+    rc: relaxed costs (name -> value) used on the right-hand side of S5 instead of the costs"""
     names, cost = case.names, case.cost
     Wset = set(W)
     NW = [c for c in names if c not in Wset]
@@ -65,7 +80,8 @@ def conditions(case: Case, W, b, pf, stable, exhaustive):
     if not stable:
         out["C5"] = min([cost[c] - sum((l for bal, l in zip(case.ballots, left) if c in bal), F(0)) for c in NW], default=F(0))
     else:
-        out["S5"] = min([cost[c] - sum((max(m, l) for bal, l, m in zip(case.ballots, left, mx) if c in bal), F(0)) for c in NW], default=F(0))
+        rcost = cost if rc is None else rc
+        out["S5"] = min([rcost[c] - sum((max(m, l) for bal, l, m in zip(case.ballots, left, mx) if c in bal), F(0)) for c in NW], default=F(0))
     return out
 
 
@@ -553,6 +569,361 @@ def mes_part(ctx, box, n_elections):
 
 
 # ----------------------------------------------------------------------------------------------
+# part 4: relaxations of the stable condition (pabutools/analysis/priceability_relaxation.py)
+
+RELAX = lp_oracle.RELAX_KINDS
+RELAX_CLASS = {"mul": "MinMul", "add": "MinAdd", "vec": "MinAddVector", "vecpos": "MinAddVectorPositive", "off": "MinAddOffset"}
+
+
+def relaxed_costs(case: Case, kind, beta, betav):
+    """`get_relaxed_cost` as a function of the saved beta, exact (beta: scalar or None, betav: name -> value)"""
+    betav = betav or {}
+    out = {}
+    for c in case.names:
+        if kind == "mul":
+            out[c] = case.cost[c] * beta
+        elif kind == "add":
+            out[c] = case.cost[c] + beta
+        elif kind in ("vec", "vecpos"):
+            out[c] = case.cost[c] + betav.get(c, F(0))
+        else:
+            out[c] = case.cost[c] + beta + betav.get(c, F(0))
+    return out
+
+
+def lib_validate_relaxed(case: Case, W, b, pf, stable, exhaustive, kind, beta, betav):
+    """validate_price_system with a relaxation object whose saved beta is set to the exact numbers;
+    -> (answer, {name: R.get_relaxed_cost(project)})"""
+    import collections
+
+    from pabutools.analysis.priceability import validate_price_system
+    import pabutools.analysis.priceability_relaxation as rel
+
+    inst, projs = core.build_instance(case)
+    prof = core.build_profile(case, inst, projs)
+    R = getattr(rel, RELAX_CLASS[kind])(inst, prof)
+    if kind in ("mul", "add"):
+        R._saved_beta = core.to_num(beta)
+    else:
+        d = collections.defaultdict(int)
+        for c, v in (betav or {}).items():
+            if v != 0:
+                d[projs[c]] = core.to_num(v)
+        R._saved_beta = {"beta": d, "sum": sum(d.values())}
+        if kind == "off":
+            R._saved_beta["beta_global"] = core.to_num(beta)
+    pfl = [{projs[c]: core.to_num(p[c]) for c in case.names} for p in pf]
+    try:
+        got = bool(validate_price_system(inst, prof, [projs[c] for c in W], core.to_num(b), pfl, stable=stable, exhaustive=exhaustive,
+                                         relaxation=R))
+        rc = {c: core.toF(R.get_relaxed_cost(projs[c])) for c in case.names}
+    except Exception as e:  # noqa: BLE001
+        return "err:" + core.err_enum(e), None
+    return got, rc
+
+
+def relax_line(case: Case, W, b, pf, stable, exhaustive, kind, beta, betav):
+    bv = ",".join(q2s((betav or {}).get(c, F(0))) for c in case.names)
+    return (price_line(case, W, b, pf, stable, exhaustive).replace("price ", "pricerelax ", 1)
+            + f" relax={kind} beta={q2s(beta if beta is not None else F(0))} betav={bv}")
+
+
+def relax_validator_part(ctx, n_elections, lines):
+    """exact optimal relaxed systems (LP oracle) and copies with a lowered / raised beta: library validator with the
+    relaxation object vs the exact conditions (violations) and vs the Lean model (disagreements)"""
+    rng = ctx.rng
+    for _ in range(n_elections):
+        case = gen_case(rng)
+        names = case.names
+        allW = list(subsets(names))
+        rng.shuffle(allW)
+        done = 0
+        for W in allW:
+            if done >= 3:
+                break
+            for kind in RELAX:
+                st, val, wit = lp_oracle.relaxed_optimum(names, case.cost, case.budget, case.ballots, W, kind, exhaustive=False)
+                if st != "optimal":
+                    continue
+                done += 1
+                ex = lp_oracle.is_exhaustive_alloc(names, case.cost, case.budget, W) and rng.random() < 0.6
+                beta, betav = wit["beta"], dict(wit["betav"])
+                NW = [c for c in names if c not in W]
+                variants = [("relax-exact", beta, betav, True)]
+                for d in (rng.choice([F(1, 10), F(1, 5), F(1, 2), F(1), F(7, 3)]), -rng.choice([F(1, 3), F(1), F(5, 2)]),
+                          rng.choice([F(1, 1000), F(1, 200), F(1, 100), F(15, 1000), F(1, 30), F(1, 200) + F(1, 10**6), F(5, 100)])):
+                    tag = "relax-lower" if d >= F(1, 10) else "relax-raise" if d < 0 else "relax-near"
+                    if kind in ("vec", "vecpos"):
+                        if not NW:
+                            continue
+                        c = rng.choice(NW)
+                        bv2 = dict(betav)
+                        bv2[c] = bv2.get(c, F(0)) - d
+                        variants.append((tag, beta, bv2, True))
+                    else:
+                        variants.append((tag, beta - d, betav, True))
+                variants.append(("relax-plain", beta, betav, False))  # without `stable` the relaxation is not read
+                for tag, be, bv, stable in variants:
+                    judge_relaxed(ctx, case, W, wit["b"], wit["pf"], stable, ex, kind, be, bv, tag, lines)
+
+
+def judge_relaxed(ctx, case, W, b, pf, stable, exhaustive, kind, beta, betav, tag, lines):
+    rc = relaxed_costs(case, kind, beta, betav)
+    conds = conditions(case, W, b, pf, stable, exhaustive, rc=rc)
+    exact = is_exact(conds)
+    broken = broken_by_margin(conds)
+    got, lib_rc = lib_validate_relaxed(case, W, b, pf, stable, exhaustive, kind, beta, betav)
+    ctx.evaluations += 1
+    ctx.count("validator_kind", tag)
+    ctx.count("relax_validator", kind + "/" + ("accept" if exact else "reject" if broken else "unspecified"))
+    cfg = {"part": "relax_validator", "W": W, "b": q2s(b), "pf": [{c: q2s(v) for c, v in p.items()} for p in pf], "stable": stable,
+           "exhaustive": exhaustive, "kind": tag, "relax": kind, "beta": None if beta is None else q2s(beta),
+           "betav": {c: q2s(v) for c, v in (betav or {}).items()}}
+    if len(case.ballots) >= 2 and len(case.names) >= 2 and len(W) >= 1 and len(W) < len(case.names):
+        ctx.nontrivial.add((case.key(), tuple(W), kind, cfg["beta"], str(cfg["betav"]), stable, exhaustive))
+    worst = min(conds, key=lambda k: conds[k])
+    sig = {"call": "validate_price_system", "stable": stable, "relaxation": RELAX_CLASS[kind]}
+    if lib_rc is not None and any(lib_rc[c] != rc[c] for c in case.names):
+        ctx.violations.append({"what": f"{RELAX_CLASS[kind]}.get_relaxed_cost differs from its documented shape", "case": case.to_json(), "cfg": cfg,
+                               "impl": {c: q2s(v) for c, v in lib_rc.items()}, "expected": {c: q2s(v) for c, v in rc.items()},
+                               "sig": dict(sig, kind="relaxed_cost")})
+    if exact and got is not True:
+        ctx.violations.append({"what": f"validator with {RELAX_CLASS[kind]} rejects a pair that meets every relaxed condition exactly (returned {got})",
+                               "case": case.to_json(), "cfg": cfg, "impl": got, "expected": True, "sig": dict(sig, kind="complete")})
+    if broken and got is not False:
+        ctx.violations.append({"what": f"validator with {RELAX_CLASS[kind]} accepts a pair that breaks {worst} by {float(-conds[worst]):.3f} (returned {got})",
+                               "case": case.to_json(), "cfg": cfg, "impl": got, "expected": False,
+                               "sig": dict(sig, kind="sound", condition=worst)})
+    lines.append((relax_line(case, W, b, pf, stable, exhaustive, kind, beta, betav), got, exact, rc, case, cfg))
+
+
+def flush_relax_model(ctx, lines):
+    if not lines:
+        return
+    outs = core.run_driver([l[0] for l in lines])
+    for (line, got, exact, rc, case, cfg), out in zip(lines, outs):
+        parts = out.strip().split(" ")
+        mv = parts[1] if len(parts) > 1 else out
+        me = parts[2] if len(parts) > 2 else out
+        mrc = parts[3] if len(parts) > 3 else ""
+        gs = "1" if got is True else "0" if got is False else str(got)
+        want_rc = ",".join(f"{i}:{q2s(rc[c])}" for i, c in sorted((case.rank[c], c) for c in case.names))
+        got_rc = ",".join(sorted(mrc.split(","), key=lambda t: int(t.split(":")[0]))) if mrc else ""
+        if mv != gs:
+            ctx.disagreements.append({"line": line, "impl": gs, "model": mv, "what": "Price.validateRelaxed != validate_price_system(relaxation=…)",
+                                      "case": case.to_json(), "cfg": cfg})
+        if me != ("1" if exact else "0"):
+            ctx.disagreements.append({"line": line, "impl": "1" if exact else "0", "model": me,
+                                      "what": "Price.exactRelaxed != independent exact evaluation of the relaxed conditions", "case": case.to_json(), "cfg": cfg})
+        if got_rc != want_rc:
+            ctx.disagreements.append({"line": line, "impl": want_rc, "model": got_rc, "what": "model relaxed cost != get_relaxed_cost shape",
+                                      "case": case.to_json(), "cfg": cfg})
+        ctx.sample(f"{line} -> impl {gs} | model validateRelaxed {mv} exactRelaxed {me} rc {mrc} | exact conditions {int(exact)}")
+
+
+def relaxed_violation(case: Case, ans, kind, exhaustive, searched):
+    """largest violation, by the returned point, of (a) the relaxed price-system conditions and (b) the MIP `priceable` builds with
+    the relaxation, both recomputed exactly from the returned floats -> (definition violation, MIP violation, relaxed costs)"""
+    names = case.names
+    cost, B = case.cost, case.budget
+    INF = 10 * B
+    n = len(case.ballots)
+    A = set(ans["alloc"])
+    x = {c: (1 if c in A else 0) for c in names}
+    b = F(ans["b"])
+    pf = [{c: F(row[k]) for k, c in enumerate(names)} for row in ans["pf"]]
+    beta = F(ans["beta_global"]) if ans.get("beta_global") is not None else None
+    betav = {c: F(v) for c, v in zip(names, ans["betav"])} if ans.get("betav") is not None else {}
+    rc = relaxed_costs(case, kind, beta, betav)
+    conds = conditions(case, sorted(A), b, pf, True, exhaustive, rc=rc)
+    dviol = max([F(0)] + [-v for v in conds.values()])
+    viol = [F(0), -b]
+    total = sum((cost[c] * x[c] for c in names), F(0))
+    viol.append(total - B)
+    if exhaustive:
+        for c in names:
+            viol.append(B + 1 - (total + cost[c] + x[c] * INF))
+    elif searched:
+        viol.append(B - b * n)
+    for i, bal in enumerate(case.ballots):
+        for c in names:
+            if c not in bal:
+                viol.append(abs(pf[i][c]))
+            viol.append(-pf[i][c])
+            viol.append(pf[i][c] - x[c] * INF)
+        viol.append(sum(pf[i].values(), F(0)) - b)
+    for c in names:
+        s = sum((pf[i][c] for i in range(n)), F(0))
+        viol.append(s - cost[c])
+        viol.append(cost[c] + (x[c] - 1) * INF - s)
+    left = [b - sum(pf[i].values(), F(0)) for i in range(n)]
+    mvar = [max([F(0), left[i]] + list(pf[i].values())) for i in range(n)]
+    for c in names:
+        s = sum((mvar[i] for i in range(n) if c in case.ballots[i]), F(0))
+        viol.append(s - (rc[c] + x[c] * INF))
+    if kind == "mul":
+        viol.append(-beta)
+    if kind in ("add", "off"):
+        viol.append(-INF - beta)
+    if kind == "vec":
+        for c in names:
+            viol.append(betav[c] - (1 - x[c]) * B)
+            viol.append((x[c] - 1) * B - betav[c])
+    if kind in ("vecpos", "off"):
+        for c in names:
+            viol.append(-betav[c])
+    if kind == "off":
+        viol.append(sum(betav.values(), F(0)) - lp_oracle.OFFSET_FRACTION * B)
+    return dviol, max(viol), rc
+
+
+def relax_oracles(case: Case, W, kind, exhaustive):
+    """(D status, D value, M status, M value, degenerate) — exact.  degenerate: MinAdd / MinAddOffset with every project selected —
+    no unselected project constrains beta, the optimum is decided by the variable's artificial lower bound -INF (definition) or by
+    the big-M terms of the selected projects (MIP): outside what the relaxation is about, D and M are not compared"""
+    names, cost, budget, ballots = case.names, case.cost, case.budget, case.ballots
+    if W is None:
+        Mv, Mper = lp_oracle.relaxed_optimum_searched(names, cost, budget, ballots, kind, exhaustive, faithful=True)
+        Dv, Dper = lp_oracle.relaxed_optimum_searched(names, cost, budget, ballots, kind, exhaustive, faithful=False)
+        degenerate = kind in ("add", "off") and any(len(X) == len(names) for X, _ in Dper)
+        return ("optimal" if Dper else "infeasible"), Dv, ("optimal" if Mper else "infeasible"), Mv, degenerate
+    Ds, Dv, _ = lp_oracle.relaxed_optimum(names, cost, budget, ballots, W, kind, exhaustive, faithful=False)
+    Ms, Mv, _ = lp_oracle.relaxed_optimum(names, cost, budget, ballots, W, kind, exhaustive, faithful=True)
+    degenerate = kind in ("add", "off") and len(W) == len(names)
+    return Ds, Dv, Ms, Mv, degenerate
+
+
+def one_relax(ctx, box, case: Case, W, kind, exhaustive, plain):
+    """one call of priceable(..., stable=True, relaxation=R).  plain = the library's answer of the plain stable search for the same
+    allocation / flags (True / False / None when unknown)"""
+    names, cost, budget = case.names, case.cost, case.budget
+    searched = W is None
+    cfg = {"part": "relax", "W": W, "relax": kind, "exhaustive": exhaustive, "stable": True}
+    sig = {"call": "priceable", "stable": True, "exhaustive": exhaustive, "searched": searched, "relaxation": RELAX_CLASS[kind]}
+    Ds, Dv, Ms, Mv, degenerate = relax_oracles(case, W, kind, exhaustive)
+    ctx.evaluations += 1
+    ctx.count("search_mode", "relax/" + kind + ("/searched" if searched else "/given") + ("/exh" if exhaustive else ""))
+    ctx.count("relax_oracle", kind + "/" + (Ms if Ms != "optimal" else "degenerate" if degenerate else "optimal"))
+    if "unbounded" in (Ds, Ms):
+        raise lp_oracle.OracleError("relaxed optimum unbounded")
+    if not degenerate and (Ds != Ms or (Ds == "optimal" and Dv != Mv)):
+        ctx.violations.append({
+            "what": f"{RELAX_CLASS[kind]}: the optimum of the MIP built by priceable() is {Ms} {None if Mv is None else q2s(Mv)} but by the "
+                    f"definition of the relaxation it is {Ds} {None if Dv is None else q2s(Dv)}", "case": case.to_json(), "cfg": cfg,
+            "impl": None if Mv is None else q2s(Mv), "expected": None if Dv is None else q2s(Dv), "sig": dict(sig, kind="relax_formulation")})
+    ans = box.call({"op": "relax", "case": case.to_json(), "W": W, "kind": kind, "exhaustive": exhaustive})
+    if ans is None:
+        ctx.solver_faults += 1
+        ctx.count("solver_fault", "crash_or_timeout")
+        return None
+    if "error" in ans:
+        ctx.violations.append({"what": f"priceable with {RELAX_CLASS[kind]} raised " + ans["error"], "case": case.to_json(), "cfg": cfg,
+                               "impl": ans["error"], "expected": Ms, "sig": dict(sig, kind="exception")})
+        return None
+    success = ans["status"] in ("OPTIMAL", "FEASIBLE")
+    M = Ms == "optimal"
+
+    def suspect(what, kind_):
+        fault_sample(ctx, case, cfg, ans, M, Ds == "optimal")
+        ctx.extra.setdefault("_suspects", []).append({"what": what, "case": case.to_json(), "cfg": cfg, "impl": ans.get("status"),
+                                                      "expected": None if Mv is None else q2s(Mv), "sig": dict(sig, kind=kind_)})
+
+    if success:
+        dviol, mviol, rc = relaxed_violation(case, ans, kind, exhaustive, searched)
+        if mviol > TOL or dviol > TOL:
+            ctx.count("solver_fault", "relax_point_violates_model")
+            suspect(f"priceable with {RELAX_CLASS[kind]} reports success for allocation {W} with a price system that violates the relaxed "
+                    f"conditions by {float(max(dviol, mviol)):.2e}", "returned_system_invalid")
+            return None
+    if success != M:
+        ctx.count("solver_fault", "relax_claims_" + ans["status"].lower() + "_model_is_" + ("feasible" if M else "infeasible"))
+        suspect(f"priceable with {RELAX_CLASS[kind]} reports {'success' if success else 'failure'} for allocation {W} although the relaxed "
+                f"problem is {Ms} (exact rational oracle)", "search_vs_oracle")
+        return None
+    if not success:
+        return ans
+    if ans["status"] == "OPTIMAL" and abs(F(ans["beta"]) - Mv) > TOL:
+        ctx.count("solver_fault", "relax_beta_not_optimal")
+        suspect(f"priceable with {RELAX_CLASS[kind]} returns beta {ans['beta']!r} for allocation {W}; the optimum is {q2s(Mv)} = {float(Mv)!r} "
+                f"(exact rational oracle)", "beta_not_optimal")
+        return None
+    ctx.count("relax_beta", kind + "/optimal")
+    A = ans["alloc"]
+    if not lp_oracle.is_feasible_alloc(cost, budget, A) or (exhaustive and not lp_oracle.is_exhaustive_alloc(names, cost, budget, A)) \
+            or (not searched and sorted(A) != sorted(W)):
+        ctx.violations.append({"what": f"priceable with {RELAX_CLASS[kind]} reports success with allocation {A} (asked for {W}) which is not admissible",
+                               "case": case.to_json(), "cfg": cfg, "impl": A, "expected": W, "sig": dict(sig, kind="allocation")})
+    if any(abs(F(v) - rc[c]) > F(1, 10**9) * max(1, abs(rc[c])) for v, c in zip(ans["rc"], names)):
+        ctx.violations.append({"what": f"{RELAX_CLASS[kind]}.get_relaxed_cost differs from its documented shape for the saved beta", "case": case.to_json(),
+                               "cfg": cfg, "impl": ans["rc"], "expected": [float(rc[c]) for c in names], "sig": dict(sig, kind="relaxed_cost")})
+    if ans.get("validate") is not True:
+        ctx.violations.append({"what": f"the price system returned by priceable with {RELAX_CLASS[kind]} does not pass validate_price_system with the "
+                                       f"same relaxation object", "case": case.to_json(), "cfg": cfg, "impl": ans, "expected": True,
+                               "sig": dict(sig, kind="witness")})
+    # consistency with the plain stable search: a stable price system is feasible for every relaxation at its neutral beta
+    neutral = F(1) if kind == "mul" else F(0)
+    if plain is True and F(ans["beta"]) > neutral + TOL:
+        ctx.violations.append({"what": f"the plain stable search succeeds for allocation {W} but {RELAX_CLASS[kind]} returns beta {ans['beta']!r} > {neutral}",
+                               "case": case.to_json(), "cfg": cfg, "impl": ans["beta"], "expected": float(neutral), "sig": dict(sig, kind="consistency")})
+    if plain is False and not searched and kind in ("mul", "add") and F(ans["beta"]) < neutral - TOL:
+        ctx.violations.append({"what": f"{RELAX_CLASS[kind]} returns beta {ans['beta']!r} < {neutral} for allocation {W} (so a stable price system exists) "
+                                       f"but the plain stable search fails", "case": case.to_json(), "cfg": cfg, "impl": ans["beta"],
+                               "expected": float(neutral), "sig": dict(sig, kind="consistency")})
+    return ans
+
+
+def plain_stable(ctx, box, case: Case, W, exhaustive):
+    """the library's plain stable search, kept only when it agrees with the exact oracle of the MIP"""
+    names = case.names
+    if W is None:
+        M = any(lp_oracle.mip_model_feasible(names, case.cost, case.budget, case.ballots, X, True, exhaustive, True) for X in subsets(names))
+    else:
+        M = lp_oracle.mip_model_feasible(names, case.cost, case.budget, case.ballots, W, True, exhaustive, False)
+    ans = box.call({"op": "priceable", "case": case.to_json(), "W": W, "stable": True, "exhaustive": exhaustive})
+    ctx.evaluations += 1
+    if ans is None:
+        ctx.solver_faults += 1
+        return None
+    if "error" in ans:
+        return None
+    lib = ans["status"] in ("OPTIMAL", "FEASIBLE")
+    if lib != M:
+        return None  # judged by the search part
+    ctx.count("relax_plain_stable", "priceable" if lib else "not priceable")
+    return lib
+
+
+def relax_part(ctx, box, n_elections, searched_every=3, given_per_election=3):
+    rng = ctx.rng
+    for k in range(n_elections):
+        if ctx.budget_s is not None and ctx.elapsed() > ctx.budget_s:
+            break
+        case = gen_case(rng)
+        names = case.names
+        feas = [W for W in subsets(names) if lp_oracle.is_feasible_alloc(case.cost, case.budget, W)]
+        r = random.Random(case.seed)
+        r.shuffle(feas)
+        jobs = [(W, r.random() < 0.5 and lp_oracle.is_exhaustive_alloc(names, case.cost, case.budget, W)) for W in feas[:given_per_election]]
+        if k % searched_every == 0:
+            jobs.append((None, r.random() < 0.5))
+        for W, exhaustive in jobs:
+            plain = plain_stable(ctx, box, case, W, exhaustive)
+            betas = {}
+            for kind in RELAX:
+                ans = one_relax(ctx, box, case, W, kind, exhaustive, plain)
+                if ans is not None and ans.get("status") == "OPTIMAL":
+                    betas[kind] = ans["beta"]
+                    if len(case.ballots) >= 2 and len(names) >= 2 and (W is None or 1 <= len(W) < len(names)):
+                        ctx.nontrivial.add((case.key(), None if W is None else tuple(W), kind, exhaustive))
+            # between the relaxations: the additive offset (extra non-negative slack) never needs a larger beta than MinAdd
+            if "add" in betas and "off" in betas and betas["off"] > betas["add"] + TOL:
+                ctx.violations.append({"what": f"MinAddOffset returns beta {betas['off']!r} > MinAdd's {betas['add']!r} for allocation {W}",
+                                       "case": case.to_json(), "cfg": {"part": "relax", "W": W, "relax": "off", "exhaustive": exhaustive, "stable": True},
+                                       "impl": betas["off"], "expected": betas["add"],
+                                       "sig": {"call": "priceable", "relaxation": "MinAddOffset", "kind": "consistency"}})
+
+
+# ----------------------------------------------------------------------------------------------
 
 
 def run(ctx):
@@ -564,10 +935,14 @@ def run(ctx):
     validator_part(ctx, ctx.scale(60, 500), lines)
     flush_model(ctx, lines)
     round2_part(ctx, ctx.scale(300, 3000))
+    lines = []
+    relax_validator_part(ctx, ctx.scale(25, 250), lines)
+    flush_relax_model(ctx, lines)
     box = solverbox.Box()
     try:
         search_part(ctx, box, ctx.scale(120, 1500), modes_cap=ctx.scale(40, None))
         mes_part(ctx, box, ctx.scale(300, 3000))
+        relax_part(ctx, box, ctx.scale(70, 600), searched_every=ctx.scale(3, 2))
     finally:
         settle_suspects(ctx)
         ctx.extra["solver_fault_kinds"] = dict(box.fault_kinds)
@@ -598,6 +973,9 @@ def replay(payload):
     case = Case.from_json(payload["case"])
     cfg = payload["cfg"]
     part = cfg.get("part")
+    if cfg.get("W") is not None and not set(cfg["W"]) <= set(case.names):
+        # (the shrinker removed a project of the allocation: the stored call no longer applies to this election)
+        return True, "not applicable: the allocation names a project that is not in the election"
     if part == "validator":
         pf = [{c: F(v) for c, v in p.items()} for p in cfg["pf"]]
         b = F(cfg["b"])
@@ -608,6 +986,37 @@ def replay(payload):
         if broken_by_margin(conds) and got is not False:
             return False, "still fails: pair broken by >= 0.1 accepted"
         return True, f"property holds on the replayed input: validator returned {got}"
+    if part == "relax_validator":
+        pf = [{c: F(v) for c, v in p.items()} for p in cfg["pf"]]
+        b = F(cfg["b"])
+        beta = None if cfg["beta"] is None else F(cfg["beta"])
+        betav = {c: F(v) for c, v in cfg["betav"].items()}
+        rc = relaxed_costs(case, cfg["relax"], beta, betav)
+        conds = conditions(case, cfg["W"], b, pf, cfg["stable"], cfg["exhaustive"], rc=rc)
+        got, lib_rc = lib_validate_relaxed(case, cfg["W"], b, pf, cfg["stable"], cfg["exhaustive"], cfg["relax"], beta, betav)
+        if lib_rc is not None and any(lib_rc[c] != rc[c] for c in case.names):
+            return False, "still fails: get_relaxed_cost differs from its shape"
+        if is_exact(conds) and got is not True:
+            return False, "still fails: exact relaxed price system rejected"
+        if broken_by_margin(conds) and got is not False:
+            return False, "still fails: pair broken by >= 0.1 accepted"
+        return True, f"property holds on the replayed input: validator returned {got}"
+    if part == "relax":
+        from ..vcheck import Ctx
+
+        ctx = Ctx("C12", "quick", 0)
+        box = solverbox.Box()
+        try:
+            plain = plain_stable(ctx, box, case, cfg.get("W"), cfg["exhaustive"])
+            one_relax(ctx, box, case, cfg.get("W"), cfg["relax"], cfg["exhaustive"], plain)
+        finally:
+            box.close()
+        if ctx.violations:
+            return False, "still fails: " + ctx.violations[0]["what"]
+        sus = ctx.extra.get("_suspects", [])
+        if sus:
+            return False, "still fails: " + sus[0]["what"]
+        return True, "property holds on the replayed input" + (" (solver fault, discarded)" if ctx.solver_faults else "")
     if part == "mes":
         from pabutools.rules import method_of_equal_shares
 
